@@ -45,6 +45,13 @@ Theorem C16_compat_iff_sub_refuted :
 Proof. exact compat_iff_sub_refuted. Qed.
 Print Assumptions C16_compat_iff_sub_refuted.
 
+(* the complete description of the code, finding included: is_type_compatible is the reference relation with every
+   TypeVar of the SOURCE read as unknown (vars_unknown replaces them by a missing annotation); no guard besides wf *)
+Theorem C16_compat_iff_sub_unknown : forall a b,
+  wf a = true -> wf b = true -> (compat a b = true <-> sub (vars_unknown a) b).
+Proof. exact compat_iff_sub_unknown. Qed.
+Print Assumptions C16_compat_iff_sub_unknown.
+
 (* as equality of the two functions: what the correspondence check evaluates on every case *)
 Theorem C16_compat_eq_subb : forall a b, wf a = true -> wf b = true -> notv a = true -> compat a b = subb a b.
 Proof. exact compat_eq_subb. Qed.
@@ -52,19 +59,18 @@ Print Assumptions C16_compat_eq_subb.
 
 (* --- unions: a union source needs all members accepted, a union target needs one --- *)
 Theorem C16_compat_union_src : forall l b,
-  wf (TUnion l) = true -> wf b = true -> notv (TUnion l) = true ->
-  compat (TUnion l) b = forallb (fun x => compat x b) l.
+  wf (TUnion l) = true -> wf b = true -> compat (TUnion l) b = forallb (fun x => compat x b) l.
 Proof. exact compat_union_src. Qed.
 Print Assumptions C16_compat_union_src.
 
 Theorem C16_compat_union_tgt : forall a l,
-  wf a = true -> wf (TUnion l) = true -> notv a = true -> splits a = false ->
+  wf a = true -> wf (TUnion l) = true -> splits a = false ->
   compat a (TUnion l) = existsb (fun t => compat a t) l.
 Proof. exact compat_union_tgt. Qed.
 Print Assumptions C16_compat_union_tgt.
 
 Theorem C16_compat_union_tgt_intro : forall a t l,
-  wf a = true -> wf (TUnion l) = true -> notv a = true -> In t l -> compat a t = true -> compat a (TUnion l) = true.
+  wf a = true -> wf (TUnion l) = true -> In t l -> compat a t = true -> compat a (TUnion l) = true.
 Proof. exact compat_union_tgt_intro. Qed.
 Print Assumptions C16_compat_union_tgt_intro.
 
